@@ -292,6 +292,16 @@ static void misc_items(void)
     { ascon_masked_key_128_t k1; ascon_masked_key_160_t k2; uint8_t o[20];
       ascon_masked_key_128_init(&k1, K); ascon_masked_key_128_randomize(&k1); ascon_masked_key_128_extract(&k1, o); t_add(o, 16); if (memcmp(o, K, 16)) hx_fail("masked-key", "128 extract != key"); ascon_masked_key_128_free(&k1);
       ascon_masked_key_160_init(&k2, K); ascon_masked_key_160_randomize(&k2); ascon_masked_key_160_extract(&k2, o); t_add(o, 20); if (memcmp(o, K, 20)) hx_fail("masked-key", "160 extract != key"); ascon_masked_key_160_free(&k2); }
+    /* the keys in use after one and after two re-randomisations: the packets are those of the unmasked functions */
+    for (int alg = 0; alg < 3; alg++) for (int times = 1; times <= 2; times++) {
+        api_masked_key mk; uint8_t c[64], e[64], p[48]; size_t cl = 0, ml = 0; api_masked_key_init(alg, &mk, K);
+        for (int q = 0; q < times; q++) api_masked_key_randomize(alg, &mk);
+        api_masked_enc[alg](c, &cl, MSG, 21, ADB, 5, N, &mk); ref_aead_encrypt(alg, K, N, ADB, 5, MSG, 21, e);
+        if (cl != 37 || memcmp(c, e, 37)) hx_fail("masked-key", "%s: packet made with a key re-randomised %d time(s) differs from the unmasked function", api_alg_name[alg], times);
+        api_masked_key_randomize(alg, &mk); int r = api_masked_dec[alg](p, &ml, e, 37, ADB, 5, N, &mk); t_add(c, 37); t_int(r);
+        if (r != 0 || ml != 21 || memcmp(p, MSG, 21)) hx_fail("masked-key", "%s: the unmasked packet is not decrypted with a re-randomised key (result %d)", api_alg_name[alg], r);
+        api_masked_key_free(alg, &mk);
+    }
     t_end("masked-key");
     /* PRNG with a scripted system source: deterministic in the tape */
     { ascon_random_state_t rs; uint8_t o[64]; int r;
